@@ -1350,6 +1350,9 @@ func main() {
 		for i := 0; i < n/2+16; i++ {
 			emitPayloadDoc(w, seed, i, dir)
 		}
+		for i := 0; i < n/4+30; i++ {
+			emitCaseVariants(w, seed, i, dir)
+		}
 		w.Close()
 	case "genjv":
 		var n int
@@ -1390,6 +1393,8 @@ func replay(in map[string]any, dir, repo string) {
 		emitHistory(w, seed, num("history_index"))
 	case "history-cert":
 		emitCertHistory(w, seed, num("history_index"))
+	case "case-variants":
+		emitCaseVariants(w, seed, num("case_index"), dir)
 	case "payload-doc":
 		emitPayloadDoc(w, seed, num("doc_index"), dir)
 	case "two-envelopes":
